@@ -34,6 +34,8 @@ def template_check(repo, chk, rule, qual, name, what, ref=None, keep=()):
     ok, missing, extra = compare(fi, template_func(ref or ref_source(), name), keep=keep)
     extra = [e for e in extra if not benign_extra(e)]
     ok = not missing and not extra
+    if ok:
+        chk.equiv.add(fi.qual)
     detail = ''
     if not ok:
         detail = 'expected: ' + ' || '.join(e.show() for e in missing)[:700] + '  ## found instead: ' + ' || '.join(e.show() for e in extra)[:700]
